@@ -28,6 +28,7 @@ CONSTANTS
     ShotRMenu(_, _),   \* ctx, shots -> set of [p, d]: single-shot opens (d a delivery descriptor)
     MaxSeals, MaxOpens, MaxExports, MaxSetSeq, MaxShots,
     OvfFirstInOpen,    \* TRUE: allocating open checks the latch before the length (see D5)
+    HugeSeals,         \* TRUE: the environment may also try to seal an impossibly long plaintext
     RecordHist         \* TRUE: keep the whole behaviour in `hist` (generation runs only)
 
 VARIABLES
@@ -218,6 +219,27 @@ Seal(c, pt, aad, form) ==
                       ELSE sent
            /\ Record(rec)
     /\ UNCHANGED <<rcvd, shots>>
+
+(***************************************************************************)
+(* A plaintext beyond what the AEAD can take (RFC 5116: AES-GCM at most     *)
+(* 2^36 - 31 bytes, ChaCha20Poly1305 at most 2^38 - 64): the AEAD refuses,  *)
+(* the library answers SealError - and, being a failure, changes nothing:  *)
+(* the counter stays where it is and the next message gets this nonce.     *)
+(* (TLC integers cannot hold such lengths; the size is carried as text.)   *)
+(***************************************************************************)
+HugeLen(aead) == IF aead = AEAD_CHACHA THEN "274877906944" ELSE "68719476737"     \* 2^38, 2^36 + 1
+SealHuge(c, aad) ==
+    /\ c \in Senders
+    /\ ~IsExportOnly(ctx[c])
+    /\ Count("seal") < MaxSeals
+    /\ Bump("seal")
+    /\ LET st == ctx[c]
+           r == IF st.ovf THEN [kind |-> "err", err |-> E_MLR] ELSE [kind |-> "err", err |-> E_SEAL]
+       IN  Record([op |-> "seal_huge", c |-> c, form |-> "detached",
+                   plain |-> [len |-> HugeLen(AeadOf(st))], bytes |-> [aad |-> aad],
+                   kind |-> r.kind, err |-> r.err, out |-> EmptyF, outn |-> EmptyF,
+                   pre |-> SeqState(st), post |-> SeqState(st), untouched |-> FALSE])
+    /\ UNCHANGED <<ctx, sent, rcvd, shots>>
 
 (***************************************************************************)
 (* What the adversary can put on the wire.  A descriptor is a record       *)
@@ -422,6 +444,7 @@ Next ==
     \/ \E c \in Live, v \in SeqMenu : HookSetSeq(c, v)
     \/ \E c \in Senders : \E pt \in PtMenu(Len(sent[c])), aad \in AadMenu(Len(sent[c])), f \in FormMenu :
             Seal(c, pt, aad, f)
+    \/ HugeSeals /\ \E c \in Senders : \E aad \in AadMenu(Len(sent[c])) : SealHuge(c, aad)
     \/ \E c \in Receivers, d \in DeliveryMenu(sent), f \in FormMenu : Open(c, d, f)
     \/ \E c \in Live, e \in ExportMenu : Export(c, e[1], e[2])
     \/ \E m \in ShotSMenu(ctx, shots), f \in FormMenu : SingleShotSeal(m, f)
